@@ -36,6 +36,14 @@ class Undecided(Exception):
     pass
 
 
+class Unbound(Undecided):
+    """A name that has no value on the evaluated path (unknown to the evaluator, or never assigned on this path)."""
+
+    def __init__(self, name):
+        super().__init__(f"name `{name}`")
+        self.name = name
+
+
 class _Return(Exception):
     def __init__(self, value):
         self.value = value
@@ -442,7 +450,17 @@ class Interp:
             env[t.id] = v
             return
         if isinstance(t, (ast.Tuple, ast.List)):
-            vs = list(v) if isinstance(v, (list, tuple, np.ndarray)) else None
+            vs = list(v.it) if isinstance(v, PyIter) else list(v) if isinstance(v, (list, tuple, np.ndarray)) else None
+            stars = [i for i, a in enumerate(t.elts) if isinstance(a, ast.Starred)]
+            if vs is not None and len(stars) == 1 and len(vs) >= len(t.elts) - 1:
+                i = stars[0]
+                tail = len(t.elts) - i - 1
+                for a, b in zip(t.elts[:i], vs[:i]):
+                    self.assign(a, b, env)
+                self.assign(t.elts[i].value, vs[i:len(vs) - tail], env)
+                for a, b in zip(t.elts[i + 1:], vs[len(vs) - tail:]):
+                    self.assign(a, b, env)
+                return
             if vs is None or len(vs) != len(t.elts):
                 raise Undecided("unpacking")
             for a, b in zip(t.elts, vs):
@@ -606,7 +624,7 @@ class Interp:
             if e.id in ("float", "int", "len", "range", "enumerate", "list", "tuple", "min", "max", "isinstance",
                         "callable", "zip", "Number", "Real", "Integral", "bool", "abs", "reversed", "sum", "dict", "type", "slice", "sorted", "str", "iter", "all", "any", "partial"):
                 return ("builtin", e.id)
-            raise Undecided(f"name `{e.id}`")
+            raise Unbound(e.id)
         if isinstance(e, ast.UnaryOp):
             v = self.ev(e.operand, env)
             if isinstance(e.op, ast.Not):
@@ -1033,6 +1051,32 @@ class Interp:
         raise Undecided(f"builtin {name}")
 
     def numpy(self, name, args, kw, e):
+        if name in ("ones", "full", "zeros_like", "ones_like", "empty_like", "full_like"):
+            if name.endswith("_like"):
+                ref = args[0] if isinstance(args[0], np.ndarray) else _obj_array(args[0])
+                shp = ref.shape
+                fill = sp.Integer(1) if name == "ones_like" else (_exact(args[1]) if name == "full_like" else sp.Integer(0))
+            else:
+                shp = args[0]
+                shp = tuple(self._int(x) for x in shp) if isinstance(shp, (tuple, list)) else (self._int(shp),)
+                fill = sp.Integer(1) if name == "ones" else _exact(args[1] if len(args) > 1 else kw.get("fill_value"))
+            out = np.empty(shp, dtype=object)
+            out.fill(fill)
+            return out
+        if name in ("rint", "round", "around", "floor", "ceil"):
+            v = args[0]
+            def one(x):
+                if isinstance(x, (int, np.integer, sp.Integer)):
+                    return x
+                if isinstance(x, (float, sp.Rational, sp.Float)):
+                    return sp.Integer(int(getattr(np, "rint" if name in ("round", "around") else name)(float(x))))
+                raise Undecided(f"np.{name} of symbolic data")
+            if isinstance(v, np.ndarray):
+                out = np.empty(v.shape, dtype=object)
+                for idx in np.ndindex(v.shape):
+                    out[idx] = one(v[idx])
+                return out
+            return one(v)
         if name in ("zeros", "empty"):
             shp = args[0]
             shp = tuple(self._int(x) for x in shp) if isinstance(shp, (tuple, list)) else (self._int(shp),)
@@ -1208,6 +1252,21 @@ class Interp:
         if name in ("isinf", "isnan"):
             raise Undecided(f"np.{name} of symbolic data")
         raise Undecided(f"np.{name}")
+
+
+def class_resolver(repo, cls_name, obj, it):
+    """Fallback for attributes of a stub object: methods / properties of the real class, interpreted from the source."""
+    def resolver(name):
+        fdef = repo.resolve_method(cls_name, name)
+        if fdef is None or not isinstance(fdef.node, ast.FunctionDef):
+            return False, None
+        decos = {getattr(d, "id", getattr(d, "attr", None)) for d in fdef.node.decorator_list}
+        if "property" in decos:
+            return True, it.call_def(fdef.node, [obj], {}, {})
+        if "staticmethod" in decos:
+            return True, (lambda *a, **k2: it.call_def(fdef.node, list(a), k2, {}))
+        return True, (lambda *a, **k2: it.call_def(fdef.node, [obj] + list(a), k2, {}))
+    return resolver
 
 
 def module_globals_of(tree):
